@@ -57,7 +57,7 @@ def run(ctx):
 
     per = {}
     for prof in ctx.pick(QUICK, THOROUGH):
-        r = ctx.tlc("ods", "MC_OdsTable", "MC_OdsTable_%s.cfg" % prof, workers=ctx.pick(4, 6),
+        r = ctx.tlc("ods", "MC_OdsTable", "MC_OdsTable_%s.cfg" % prof, workers=ctx.pick(3, 6),
                     timeout=ctx.pick(300, 2400), xmx=ctx.pick("3g", "8g"))
         n = 0
         if "REPLAY" in r["tags"]:
